@@ -9,7 +9,7 @@ echo
 echo "| seed | property | result | first violation key |"
 echo "|---|---|---|---|"
 for d in seeded/*/; do
-  n=$(basename "$d"); p=$(python3 -c "import json;print(json.load(open('$d/meta.json'))['property'])")
+  n=$(basename "$d"); p=$(python3 -c "import json;m=json.load(open('$d/meta.json'));print(m.get('check') or m['property'])")
   o=$(tools/mutant.sh "$d/patch.diff" "$p" quick 2>&1); rc=$?
   key=$(echo "$o" | grep -m1 '^VIOLATION' | sed -e 's/.*key=\(\S*\).*/\1/')
   case $rc in 1) r="DETECTED";; 0) r="missed";; 3) r="patch does not apply";; *) r="check broken (rc=$rc)";; esac
